@@ -164,15 +164,21 @@ func checkOne(c *core.Ctx, text string, hs, is gen.DataSpec, verbose bool) {
 		return
 	}
 	c.Count("accepted_hostile_executions", 1)
-	if k14Shape(text) && !c.Strict {
-		c.Count("excluded_by_known:K14", 1)
-		return
+	if k14Shape(text) {
+		// was the exclusion of known finding K14 until 631be5b; judged like every other case now
+		c.Count("accepted_with_double_escaped_script_shape", 1)
 	}
 	rI := tx.Run(text, is.Build())
 	// the output is read both by a parser without and by one with scripting (noscript)
-	for oi, opt := range []htmltok.Options{{}, {Scripting: true}} {
-		if oi == 1 && !strings.Contains(strings.ToLower(rH.Out), "<noscript") {
-			break
+	// ... and, where it has svg or math, by one that knows foreign content (there the raw-text
+	// elements of HTML hold markup)
+	for oi, opt := range []htmltok.Options{{}, {Scripting: true}, {Foreign: true}} {
+		lo := strings.ToLower(rH.Out)
+		if oi == 1 && !strings.Contains(lo, "<noscript") {
+			continue
+		}
+		if oi == 2 && !strings.Contains(lo, "<svg") && !strings.Contains(lo, "<math") {
+			continue
 		}
 		var inertTags []*htmltok.Token
 		tokH := htmltok.Tokenize(rH.Out, opt)
